@@ -241,19 +241,19 @@ c17_quick_sort_2_harness!(c17_quick_sort_2_r04, 0, 4, 2);
 // @funcs Evaluator::do_std_sort_quick_sort_2
 c17_quick_sort_2_harness!(c17_quick_sort_2_r13, 1, 3, 0);
 
-// @harness id=c17_quick_sort_2_r14 props=C17 tier=thorough cap=1800
+// @harness id=c17_quick_sort_2_r14 props=C17 tier=attempt cap=1800
 // @desc as c17_quick_sort_2_r04 for the range 1..4 with 1 foreign outcome
 // @bound vector of 4 arbitrary entries, range 1..4
 // @funcs Evaluator::do_std_sort_quick_sort_2
 c17_quick_sort_2_harness!(c17_quick_sort_2_r14, 1, 4, 1);
 
-// @harness id=c17_quick_sort_2_r03 props=C17 tier=thorough cap=1800
+// @harness id=c17_quick_sort_2_r03 props=C17 tier=attempt cap=1800
 // @desc as c17_quick_sort_2_r04 for the range 0..3 with 2 foreign outcomes
 // @bound vector of 4 arbitrary entries, range 0..3
 // @funcs Evaluator::do_std_sort_quick_sort_2
 c17_quick_sort_2_harness!(c17_quick_sort_2_r03, 0, 3, 2);
 
-// @harness id=c17_quick_sort_2_r24 props=C17 tier=thorough cap=1800
+// @harness id=c17_quick_sort_2_r24 props=C17 tier=attempt cap=1800
 // @desc as c17_quick_sort_2_r04 for the range 2..4 with 2 foreign outcomes
 // @bound vector of 4 arbitrary entries, range 2..4
 // @funcs Evaluator::do_std_sort_quick_sort_2
